@@ -198,6 +198,19 @@ def evaluate_verdict(spec):
     from tlexport.packet import Packet
     from tlexport.checksums import calculate_checksum_tcp, calculate_checksum_udp
     ep = scenario.default_ep(spec["i"] % 200, v6=spec["v6"])
+    if spec.get("addr"):
+        # address pair whose 16-bit words add up (end-around) to 0xffff - d: implementations that add the pseudo header and the
+        # segment in separate steps need a second carry there
+        from ipaddress import ip_address
+        ep = dict(ep)
+        cw = ip_address(ep["cip"]).packed
+        sw = bytearray(ip_address(ep["sip"]).packed)
+        part = sum(struct.unpack("!%dH" % (len(cw) // 2), cw)) + sum(struct.unpack("!%dH" % (len(sw) // 2 - 1), bytes(sw[:-2])))
+        while part > 0xFFFF:
+            part = (part & 0xFFFF) + (part >> 16)
+        last = (0xFFFF - spec["addr"] - part) % 0xFFFF or 0xFFFF
+        sw[-2:] = struct.pack("!H", last)
+        ep["sip"] = str(ip_address(bytes(sw)))
     payload = bytes((7 * j + spec["i"]) & 0xFF for j in range(spec["len"]))
     cm, sm = bytes.fromhex(ep["cmac"]), bytes.fromhex(ep["smac"])
     target = TARGETS[spec["target"] % len(TARGETS)]
@@ -234,14 +247,17 @@ def evaluate_verdict(spec):
     field = struct.unpack("!H", (fr[l4:][16:18] if spec["proto"] == "tcp" else fr[l4:][6:8]))[0]
     labels = [spec["proto"], "v6" if spec["v6"] else "v4", "odd" if spec["len"] % 2 else "even", "target:" + (target if steered else "none"),
               "field:%s" % ("0x0000" if field == 0 else "0xffff" if field == 0xFFFF else "0xfffe" if field == 0xFFFE else "other")]
+    if spec.get("addr") is not None:
+        labels.append("address-words-sum-near-0xffff")
     labels += ["wire:" + k for k in sorted(w) if (k != "ip4opt" or not spec["v6"]) and (k != "ip6ext" or spec["v6"])]
     return {"sig": sig, "detail": f"{spec} field {field:#06x} verdict {got}", "nontrivial": steered or bool(bad) or bool(w), "labels": labels}
 
 
-VERDICT = st.builds(lambda i, v6, proto, ln, seq, target, bad, wire: {"i": i, "v6": v6, "proto": proto, "len": ln, "seq": seq, "target": target, "bad": bad,
-                                                                       "wire": wire},
+VERDICT = st.builds(lambda i, v6, proto, ln, seq, target, bad, wire, addr: {"i": i, "v6": v6, "proto": proto, "len": ln, "seq": seq, "target": target, "bad": bad,
+                                                                             "wire": wire, "addr": addr},
                     st.integers(0, 199), st.booleans(), st.sampled_from(["tcp", "udp"]), st.one_of(st.integers(1, 64), st.integers(1, 1400)),
-                    st.integers(0, 2 ** 32 - 1), st.integers(0, 4), st.one_of(st.just(0), st.just(0), st.integers(1, 0xFFFF)), strategies.WIRE)
+                    st.integers(0, 2 ** 32 - 1), st.integers(0, 4), st.one_of(st.just(0), st.just(0), st.integers(1, 0xFFFF)), strategies.WIRE,
+                    st.sampled_from([None, None, 0, 1, 2, 15, 0x100, 0x600]))
 
 
 def stages(tier):
